@@ -19,7 +19,7 @@ from tools.props import c05_types as T
 MANIFEST = {
     "level_text": "Coq theorems (Properties/C05.v, no axioms) over a faithful Gallina transcription of parse_type_structure (with the depth-aware find_top_level_comma / split_top_level), the default/TypeScript/Zod visitors, the Zod schema builder and add_types_prefix, for every type of the documented language (unbounded nesting): C05_parse_faithful (string -> TypeStructure round trip, no class premise); C05_sound_ts_sites - at every site whose text is a TypeScript type (parameter, field, channel in plain mode; channel, return, event payload in both modes: 8 of the 10 site x mode pairs) and outside the recorded classes the printed text, read by an independent TypeScript type parser with real precedences, is exactly the README-table shape of the Rust type, namespace-qualified at return/event sites (C05_sound_plain, C05_sound_prefix, C05_prefix_is_qualified_render: add_types_prefix on the visitor's text is the qualified rendering); C05_compositional_*; C05_oracle_exact (the boolean run-time oracle is equivalent to the Prop statement); C05_zod_tree_denotes, C05_sound_zod_schema and C05_sound_full_bounded (the full statement at all ten site x mode pairs, Zod parameter/field schemas included, for types nested less than 31 levels whose structure lies in the domain of the C10 round-trip theorem; see level_note); a computed refutation for each of the five remaining classes and a computed positive statement on the witnesses of the three repaired ones. The model is tied to /repo on every run: every constructor spine to depth 2 (quick) / 3 (thorough), all 14 numeric widths, random types to depth 6 and a malformed-string stream are pushed through the real parsers, visitors, schema builder and the real partial templates, compared string for string with the extracted model at all five sites in both modes, and the extracted specification is applied to the implementation's text.",
     "design_ref": "DESIGN.md section 5 C05",
-    "level_note": "ALL ten site x mode pairs are now theorems: C05_sound_full_bounded / C05_sound_zod_schema prove the full statement at every site in both modes with two decidable premises added - tsdepth (sem t) < 31 (the specification's expression parser has the fixed budget 64) and C10Zod.dom (sem t) (the domain of the C10 development's round-trip theorem C10LexEx.parse_build: map keys String/numbers, names not taken) - so types with a named or bool map key, or nested 31 levels or more, are covered at the Zod schema sites only CONDITIONALLY: C05_sound_all_sites / C05_sound_zod_schema_under_link give the statement under (a) the nesting premise tdepth (sem t) < 60 (the specification's expression parser has the fixed budget 64) and (b) the explicit hypothesis zod_parse_link - the builder's text parses to the builder's tree, parse_ex (build_schema m ts) = Some (zex_of m ts false) - which is the round trip the C10 development is proving; unconditional here are the reading of that tree (C05_zod_tree_denotes: zshape of the tree is the README shape, by structural induction) and the identity of the two builder models (C05_zod_builders_agree). For that remainder the two sites additionally rest on bounded sweeps of the model (C05_sweep_sound_depth1_partial / C05_classes_exact_depth1_partial in the property file: 196 types x 5 sites x 2 modes; the depth-2 sweep over the 3763 types of the quick enumeration is coq/Proofs/C05Sweep2.v, compiled by the thorough tier and kept out of the property's coqchk closure) plus the run-time oracle and correspondence; C05_sound_full_statement itself stays unasserted. The TypeScript-side theorems are stated over ASCII identifiers (dom_b); C05_parse_faithful covers UTF-8 names (C05_utf8_names_admitted) and non-ASCII names are checked at run time through a consistent renaming to ASCII (widening needs the one-line change of is_idc in the shared Model/Render.v - verified in a scratch copy to leave every proof of this property intact - which forces a rebuild of the C01, C02, C03, C12 closures and was therefore left to the coordinator). Event payload type inference (event_parser.rs) and whole-project generation through the CLI are not exercised: the event site starts from EventInfo.payload_type. Repaired and no longer classes: C05-2, C05-3, C05-4. The TypeScript grammar subset, the Zod reading and the README table are specifications, not proved against tsc / zod / serde_json.",
+    "level_note": "Tuples of every arity (the 1-tuple (T,), printed (T), reads as [T]) and project types with names such as Path, Date, Record are inside the enumerations (streams tuple-arity, special-names); the theorems never restricted tuple arity; Record / Map / Set as project type names are reserved in dom_b and judged by the run-time oracle only. ALL ten site x mode pairs are now theorems: C05_sound_full_bounded / C05_sound_zod_schema prove the full statement at every site in both modes with two decidable premises added - tsdepth (sem t) < 31 (the specification's expression parser has the fixed budget 64) and C10Zod.dom (sem t) (the domain of the C10 development's round-trip theorem C10LexEx.parse_build: map keys String/numbers, names not taken) - so types with a named or bool map key, or nested 31 levels or more, are covered at the Zod schema sites only CONDITIONALLY: C05_sound_all_sites / C05_sound_zod_schema_under_link give the statement under (a) the nesting premise tdepth (sem t) < 60 (the specification's expression parser has the fixed budget 64) and (b) the explicit hypothesis zod_parse_link - the builder's text parses to the builder's tree, parse_ex (build_schema m ts) = Some (zex_of m ts false) - which is the round trip the C10 development is proving; unconditional here are the reading of that tree (C05_zod_tree_denotes: zshape of the tree is the README shape, by structural induction) and the identity of the two builder models (C05_zod_builders_agree). For that remainder the two sites additionally rest on bounded sweeps of the model (C05_sweep_sound_depth1_partial / C05_classes_exact_depth1_partial in the property file: 196 types x 5 sites x 2 modes; the depth-2 sweep over the 3763 types of the quick enumeration is coq/Proofs/C05Sweep2.v, compiled by the thorough tier and kept out of the property's coqchk closure) plus the run-time oracle and correspondence; C05_sound_full_statement itself stays unasserted. The TypeScript-side theorems are stated over ASCII identifiers (dom_b); C05_parse_faithful covers UTF-8 names (C05_utf8_names_admitted) and non-ASCII names are checked at run time through a consistent renaming to ASCII (widening needs the one-line change of is_idc in the shared Model/Render.v - verified in a scratch copy to leave every proof of this property intact - which forces a rebuild of the C01, C02, C03, C12 closures and was therefore left to the coordinator). Event payload type inference (event_parser.rs) and whole-project generation through the CLI are not exercised: the event site starts from EventInfo.payload_type. Repaired and no longer classes: C05-2, C05-3, C05-4. The TypeScript grammar subset, the Zod reading and the README table are specifications, not proved against tsc / zod / serde_json.",
     "technique": "Rocq/Coq proof over hand-written model + correspondence check (extracted OCaml vs Rust harness)"
 }
 
@@ -42,6 +42,12 @@ ASSUMPTIONS = ["type_mappings is a HashMap: lookup by exact key, one entry per k
 UNI_LEAVES = ["String", "i32", "\u00c4rger", "Gr\u00f6\u00dfe", "Se\u00f1al", "Na\u00efvet\u00e9", "\u6570\u636e", "Row\u540d\u524d", "T\u00fcr\u00e9",
               "\U0001d4b3form", "Da\U0001d4b3ta", "Type\U0001d4b3", "User"]
 UNI_CORE = ["String", "\u00c4rger", "Gr\u00f6\u00dfe", "\u6570\u636e", "Type\U0001d4b3", "Da\U0001d4b3ta"]
+# project type names that collide with names the tool, Rust's std, tauri, TypeScript or Zod treat specially; the
+# specification says: a project-defined Named type is rendered by its name (qualified where the site requires).
+# Record, Map, Set are outside dom_b (reserved in the theorems) but judged by the same oracle.
+SPECIAL_NAMES = ["Path", "PathBuf", "OsString", "Duration", "Instant", "Uuid", "Value", "Date", "Error", "Optional", "Vec2", "Map",
+                 "Set", "Record", "Promise", "Array", "Channel", "State", "Window", "Str", "Number", "Boolean", "Object", "Function",
+                 "Symbol", "Result2", "Schema", "Infer", "Readonly", "Partial", "Bytes", "Url", "Json", "i32", "String"]
 SITES = ["param", "return", "field", "channel", "event"]
 MODES = ["none", "zod"]
 KF_BY_CLASS = {
@@ -95,7 +101,7 @@ def rename_text(x, ren):
 
 def evaluate(cases, kf_by_class=KF_BY_CLASS, want=None):
     """cases: [{"ty": tree, "mappings": {..}|None}] -> (outcomes per (type,site,mode), pipeline outcomes, stats)"""
-    hcases = [{"id": i, "ty": T.tts(c["ty"]), "mappings": c.get("mappings")} for i, c in enumerate(cases)]
+    hcases = [{"id": i, "ty": T.src(c["ty"]), "printed": T.tts(c["ty"]), "mappings": c.get("mappings")} for i, c in enumerate(cases)]
     obs = vlib.run_harness("c05-emit", hcases, per_case_timeout=20)
 
     def texts_of(o):
@@ -323,6 +329,13 @@ def run(rep):
     nrand = 20000 if thorough else 1500
     run_stream(rep, "random", [{"ty": T.random_type(rng, rng.randint(2, 6))} for _ in range(nrand)], stats)
     run_stream(rep, "random-clean", [{"ty": T.random_clean_type(rng, rng.randint(2, 6))} for _ in range(nrand)], stats)
+    run_stream(rep, "tuple-arity", [{"ty": t} for t in T.tuple_arity_types()], stats)
+    # project-defined types named like std / tauri / TypeScript / Zod things: always rendered by name
+    special = {}
+    run_stream(rep, "special-names", [{"ty": t} for t in T.spines(1, leaves=SPECIAL_NAMES)] +
+               [{"ty": T.random_type(rng, rng.randint(2, 5), leaves=SPECIAL_NAMES)} for _ in range(3000 if thorough else 400)], special)
+    merge(stats, {k: v for k, v in special.items() if k != "out_of_domain"})
+    rep.extra["special_names_outside_dom_b"] = special.get("out_of_domain", 0)
     uni = [{"ty": t} for t in T.spines(1, leaves=UNI_LEAVES)]
     uni += [{"ty": t} for t in T.spines(3 if thorough else 2, leaves=UNI_CORE) if T.depth(t) >= 2]
     uni += [{"ty": T.random_type(rng, rng.randint(2, 6), leaves=UNI_LEAVES)} for _ in range(5000 if thorough else 600)]
